@@ -103,6 +103,16 @@ pub fn payload_len(r: &Runner, rng: &mut Rng, qlen: usize, nrec: usize, cfg: &Ge
 
 pub fn gen_append(r: &Runner, rng: &mut Rng, cfg: &GenCfg, q: String) -> Op {
     let next = r.spec.queues.get(&q).map(|s| s.next).unwrap_or(0);
+    if rng.chance(1, 40) {
+        // a large batch of equal-size records whose serialised size (12 + len) divides the
+        // payload capacity of a full frame (32761 = 181 * 181): losing whole frames out of the
+        // middle of such a batch leaves a byte string that still parses as a batch
+        let len = *rng.pick(&[169usize, 169, 350]);
+        let n = 380 + rng.below(300) as usize;
+        let seed = rng.below(1_000_000);
+        let payloads = (0..n).map(|i| Payload::Gen { len, seed: seed + i as u64 }).collect();
+        return Op::Append { q, pos: None, payloads };
+    }
     let nrec = match rng.below(20) {
         0 => 0,
         1..=12 => 1,
@@ -183,7 +193,13 @@ pub fn gen_op(r: &Runner, rng: &mut Rng, cfg: &GenCfg) -> Op {
             if longs < 2 && rng.chance(1, 6) {
                 Op::Create(long_name(rng))
             } else {
-                Op::Create(missing(r, rng))
+                // prefer re-creating a name that was deleted earlier (a new incarnation)
+                let deleted: Vec<&String> = r.spec.incarnations.keys().filter(|k| !r.spec.queues.contains_key(*k) && k.len() < 200).collect();
+                if !deleted.is_empty() && rng.chance(1, 2) {
+                    Op::Create((*rng.pick(&deleted)).clone())
+                } else {
+                    Op::Create(missing(r, rng))
+                }
             }
         } else if cfg.allow_rejected {
             Op::Create(q)
